@@ -135,7 +135,30 @@ def rule_P1(ctx, F):
             c = val(pc.expr_operand(t["op"]))
             if c[0] == "bin" and c[1] == "Eq" and ("const", None, 92) in (c[2], c[3]):
                 hit = True
+            if c[0] == "call" and norm_path(c[1]).endswith("::starts_with") and len(c[2]) == 2 and c[2][1] == ("const", None, 92):
+                hit = True      # line.starts_with('\\')
     ctx.ob(hit, "reader-escape-marker", pc.loc, "reader tests the first char against '\\\\': %s" % hit)
+    # both splitters must be given the text AFTER the escape marker: a value that is line[1..] on the marker edge
+    # and the line itself otherwise
+    def is_marker(c):
+        return (c[0] == "bin" and c[1] == "Eq" and ("const", None, 92) in (c[2], c[3])) or \
+               (c[0] == "call" and norm_path(c[1]).endswith("::starts_with") and len(c[2]) == 2 and c[2][1] == ("const", None, 92))
+    for bi, t in pc.calls():
+        e = val(pc.expr_call(t))
+        if e[1] not in ("split_tagged_check_line", "split_untagged_check_line"):
+            continue
+        a = e[2][0]
+        ok, why = False, "argument %s" % show(a)[:80]
+        if a[0] == "phi":
+            defs = local_defs_with_guards(pc, a[1])
+            cut = [(gs, ex) for b, gs, ex in defs if ex[0] == "call" and ("index" in ex[1].lower()) and ex[2][1][0] == "adt" and norm_path(ex[2][1][1]).endswith("RangeFrom") and ex[2][1][4][0] == ("const", None, 1)]
+            whole = [(gs, ex) for b, gs, ex in defs if ex[0] in ("phi", "arg", "local") or (ex[0] == "call" and norm_path(ex[1]).endswith("trim_end_matches"))]
+            if len(defs) == 2 and len(cut) == 1 and len(whole) == 1 and cut[0][1][2][0] == whole[0][1]:
+                ok = any(is_marker(c) and tr is True for c, tr in cut[0][0]) and any(is_marker(c) and tr is False for c, tr in whole[0][0])
+                why = "line[1..] on the marker edge, the line otherwise: %s" % ok
+            else:
+                why = "definitions %s" % [show(ex)[:60] for b, gs, ex in defs]
+        ctx.ob(ok, "reader-splitter-sees-text-after-marker:%s" % e[1], t.get("s"), why)
     trims = [c for c in calls_of(pc) if norm_path(c[1][1]).endswith("trim_end_matches")]
     ok = len(trims) == 1 and trims[0][1][2][1] == ("array", (("const", None, 13), ("const", None, 10)))
     ctx.ob(ok, "reader-trims-crlf", pc.loc, "trim_end_matches(['\\r','\\n']) before parsing: %s" % ok)
@@ -342,6 +365,10 @@ def rule_P4(ctx, F):
                         if norm_path(rng[1]).endswith("RangeFrom") and bounds[0] == ("const", None, 1):
                             for c, tr in gs:
                                 if tr and c[0] == "bin" and c[1] == "Eq" and any(x[0] == "const" and ASCII1(x[2]) for x in (c[2], c[3])):
+                                    ok = True
+                                # ... or after s.starts_with(<ASCII char>) on the same string
+                                if tr is True and c[0] == "call" and norm_path(c[1]).endswith("::starts_with") and len(c[2]) == 2 and c[2][0] == e[2][0] \
+                                        and c[2][1][0] == "const" and ASCII1(c[2][1][2]):
                                     ok = True
                         # (b) [prefix.len()..] after starts_with(prefix)
                         m = unify(("call", name_ends("::len"), (W("p"),)), bounds[0]) if norm_path(rng[1]).endswith("RangeFrom") else None
